@@ -49,10 +49,16 @@ def corr_coverage(lines):
         for o, c in REQUIRED_OUTCOMES + (REQUIRED_OUTCOMES_F64 if f == "f64" else []):
             if (f"{f}.{o}", c) not in outcomes:
                 missing.append(f"{f}.{o}:{c}")
-    # misaligned and ragged inputs of bytes_as_elements
-    bae = [l.split() for l in lines if ".bae " in l]
-    if not any(int(t[1], 16) != 0 for t in bae if len(t) > 2):
-        missing.append("bae:misaligned-offset")
+    # bytes_as_elements: aligned slice whose length is a half word off, and half-word-misaligned whole slices
+    for f, nb in (("f64", 8), ("f62", 8), ("f128", 16)):
+        bae = [l.split() for l in lines if l.startswith(f + ".bae ")]
+        cases = [(int(t[1], 16), 0 if t[2] == "-" else len(t[2]) // 2) for t in bae if len(t) > 2]
+        if not any(o == 0 and n % nb == nb // 2 for o, n in cases):
+            missing.append(f"{f}.bae:aligned-half-word-length")
+        if not any(o % nb == nb // 2 and n > 0 and n % nb == 0 for o, n in cases):
+            missing.append(f"{f}.bae:half-word-offset")
+        if not any(o % nb not in (0, nb // 2) and n > 0 and n % nb == 0 for o, n in cases):
+            missing.append(f"{f}.bae:odd-offset")
     return sorted(seen), missing
 
 
